@@ -19,6 +19,53 @@ CHECKS = {
         "arithmetic trusted.",
         "DESIGN.md#c07",
     ),
+    "C10": (
+        "exhaustive lattice walk of (rule, tag, depth, shape) on meta-device parameters and of "
+        "(entry point, container form, lr kind, lr, allow flag) against an exact rational LR table",
+        "Every 1-D length 1..512 (4096 thorough), every 2-D/3-D shape over a 13-value dimension "
+        "alphabet, 4 tags, 7 depths (all 1..1024 thorough), 3 rules, plus the full product of 6 "
+        "entry points (raw scaled_parameters, Adam, AdamW, SGD with both readout settings) x 6 "
+        "container forms x float/float32-tensor/float64-tensor lr x 5 lr values x allow flag, and "
+        "all error clauses; the oracle is an independent table of squared factors in Fractions.",
+        "dimension alphabet rather than all of 1..4096^3; lr values on a 5-point grid.",
+        "DESIGN.md#c10",
+    ),
+    "C11": (
+        "exhaustive enumeration of group-list structures x option bits, then a 3-step optimizer "
+        "history with zero gradients, against a list/closed-form reference model",
+        "All group lists with 1-2 groups (1-3 thorough) over the full product of per-group bits "
+        "(1-2 params, own lr, own weight_decay, extra keys), larger lists with <=2 deviating bits, "
+        "x container forms (list/tuple/generator/one-shot iterators inside groups) x float/tensor/"
+        "shared-tensor lr x weight_decay x tagged/untagged mix x independent flag x {raw, SGD, "
+        "AdamW}; identity/order/keys/no-mutation/no-aliasing are checked and every parameter is "
+        "compared with (1-wd)^n after each of 3 steps to 1e-12.",
+        "one seeded value draw per case; SGD with momentum 0.",
+        "DESIGN.md#c11",
+    ),
+    "C13": (
+        "complete sweep of the float32 input space (2^32 bit patterns) for E4M3/E5M2 plus "
+        "exhaustive structured input sets for all 168 formats, against an exact-arithmetic value-set model",
+        "thorough: every float32 bit pattern for E4M3 and E5M2 (monotonicity on every successor "
+        "pair); both tiers: all formats E2..8 x M0..23 on every representable value (E+M<=12) or "
+        "per-binade boundary values, every midpoint, +-4 float32 ulps around each, seeded mantissas "
+        "for every float32 exponent, +-0/+-inf, tensor ranks 0-3, empty and non-contiguous "
+        "layouts, float64/bfloat16/float16 dtypes; oracle = independent format model in float64.",
+        "quick tier strides the 2^32 sweep by 64; formats other than the FP8 pair use structured "
+        "sets, not all patterns; ties may go either way (statement does not fix the direction).",
+        "DESIGN.md#c13",
+    ),
+    "C14": (
+        "exhaustive enumeration of the random draw (all 2^srbits answers of the intercepted "
+        "torch.randint) per input, probabilities counted exactly against a rational model",
+        "torch.randint is substituted from the harness by an enumerator, so for every input of the "
+        "structured set all 2^srbits executions of the random choice are run (up to 2^16 quick / "
+        "2^20 thorough draws per input); 66 formats x srbits in {1,2,3,5,8,12}/1..12 and the "
+        "default; counts must equal the exact fractional position (all bits) or lie within "
+        "2^-(srbits+1) (fewer bits); independence: one draw requested per element.",
+        "structured + seeded inputs per format; format-subnormal inputs carry the 2^(M-24) "
+        "float32-division allowance.",
+        "DESIGN.md#c14",
+    ),
 }
 
 NOT_YET = {}
